@@ -31,17 +31,32 @@ transformer works):
  (vi)  S2 modules are executed plain and hooked (typechecker = identity spy)
        and driven by the same call plan: event logs, results, exceptions and the
        module-file frames of every traceback (original line numbers) are equal.
+ (vii) hook lifecycle: S2 modules that contain a def / class (nesting shapes up
+       to THREE levels below the item, so that def and class statements sit in
+       function bodies and are executed at call time) are written to disk twice
+       and imported for real - once plainly, once inside a real
+       ``with install_import_hook(name, checker):`` block, starting from the hook
+       state of a fresh process - and both are driven by the same (well-typed)
+       call plan at five points of the hook's life: inside the with-block, after
+       leaving it, while a hook for another name with another checker is
+       installed, after a further hook with the SAME checker string was installed
+       and uninstalled, and after everything is uninstalled.  At every point:
+       results, exceptions, logs and traceback frames equal the plain module's,
+       and the identity spy is applied to the same definitions as inside the
+       with-block.
 
 Don't-care zones (statement silent): see ``DONT_CARE`` below.
 """
 from __future__ import annotations
 
 import ast
+import builtins
 import collections
 import contextlib
 import copy
 import dataclasses
 import dis
+import importlib
 import inspect
 import itertools
 import os
@@ -52,7 +67,7 @@ import tempfile
 import time
 import types
 
-from .. import common
+from .. import common, worlds
 from ..common import Result, Violation
 
 TC_SPY = "vf.fixtures.spy.A"
@@ -103,13 +118,13 @@ def _def_lines(name, qual, ind, k, nest, *, is_async=False, method=False, level=
     tags = [qual]
     if nest:
         if nest[0] == "def":
-            iname = "gh"[level]
+            iname = "ghk"[level]
             lines, t = _def_lines(iname, f"{qual}.<locals>.{iname}", ind + 1, k, nest[1:], level=level + 1)
             out += lines
             tags += t
             out.append(f"{b}{iname}(x, fail)")
         else:
-            iname = "GH"[level]
+            iname = "GHK"[level]
             lines, t, has_m = _class_lines(iname, f"{qual}.<locals>.{iname}", ind + 1, k, nest[1:], level=level + 1)
             out += lines
             tags += t
@@ -136,7 +151,7 @@ def _class_lines(name, qual, ind, k, nest, *, level=0):
             lines, t = _def_lines("m", f"{qual}.m", ind + 1, k, nest[1:], method=True, level=level + 1)
             has_m = True
         else:
-            iname = "GH"[level]
+            iname = "GHK"[level]
             lines, t, _ = _class_lines(iname, f"{qual}.{iname}", ind + 1, k, nest[1:], level=level + 1)
         out += lines
         tags += t
@@ -270,6 +285,8 @@ _ENV = None
 def env():
     global _ENV
     if _ENV is None:
+        common.bind_repo()
+        worlds.hook_pristine()  # before the first Typechecker of this process is registered (the lifecycle route starts from it)
         _ENV = Env()
     return _ENV
 
@@ -753,6 +770,191 @@ def check_exec(E, P, plan, seq, tcname, stats):
 
 
 # ======================================================================================
+# hook-lifecycle route (vii): real files, real install_import_hook / with-block / uninstall
+# ======================================================================================
+
+LIFE_NESTS = NESTS + [("def", "def", "def"), ("def", "def", "class"), ("def", "class", "def"), ("class", "def", "def"), ("class", "def", "class")]
+LIFE_STACKS = (0, 2)
+LIFE_PHASES = ["inside-with-block", "after-with-block", "other-hook-installed", "same-checker-hook-came-and-went", "all-uninstalled"]
+LIFE_TC = {"spy": TC_SPY, "none": None}
+LIFE_OTHER = {"spy": "vf.fixtures.spy.B", "none": TC_SPY}  # the checker of the unrelated hook: always a different one
+_LIFE_NS = ("LOG", "d1", "d2", "dc", "FLAG")
+
+
+def call_time_definitions(seq, nest):
+    """Does the module contain a def / class statement inside a function body (so that the
+    statement, and the decorator expression the hook puts on it, is executed by CALLS)?"""
+    for ch in seq:
+        if ch in "fai" and nest:
+            return True
+        if ch in "ct" and "def" in nest and len(nest) > nest.index("def") + 1:
+            return True
+    return False
+
+
+def life_variants(seq):
+    if any(ch in DEFLIKE for ch in seq):
+        return [(k, n) for k in LIFE_STACKS for n in LIFE_NESTS]
+    return []
+
+
+def _life_phase(E, mod, plan):
+    """Drive one module once; -> (results incl. traceback frames, harness log, spy applications)."""
+    E.spy.reset()
+    out = drive(mod.__dict__, plan, mod.__file__)
+    log = list(E.spy.LOG)
+    return out, [e for e in log if e[0] != "spy"], [e for e in log if e[0] == "spy"]
+
+
+def life_case(E, tmpdir, uid, seq, k, nest, tcname, stats):
+    """One module through the whole life of a hook.  -> findings [(oracle, detail)]."""
+    src, plan = gen_source(seq, k, nest)
+    pn, hn = f"c10lp_{uid}", f"c10lh_{uid}"
+    paths = []
+    for name in (pn, hn):
+        path = os.path.join(tmpdir, name + ".py")
+        with open(path, "w", encoding="utf-8") as f:
+            f.write(src)
+        paths.append(path)
+    importlib.invalidate_caches()
+    jaxtyping = E.jaxtyping
+    findings = []
+    saved = worlds.HookState(list(E.tcs.values()))
+    meta = list(sys.meta_path)
+    had = {n: getattr(builtins, n) for n in _LIFE_NS if hasattr(builtins, n)}
+    dwb = sys.dont_write_bytecode
+    sys.dont_write_bytecode = True
+    for n, v in _make_ns(E.spy, True).items():
+        setattr(builtins, n, v)
+    handles = []
+    try:
+        worlds.hook_reset()  # a fresh process: nobody else holds a registration of this checker
+        E.spy.reset()
+        try:
+            plain = importlib.import_module(pn)
+        except BaseException as e:  # the sequences were filtered by compile(); plain modules import
+            raise common.HarnessError(f"generated module {seq!r} k={k} nest={nest} does not import plainly: {type(e).__name__}: {e}")
+        plog = [e for e in E.spy.LOG if e[0] != "spy"]
+        E.spy.reset()
+        hooked = None
+        first_spy = None
+        for ph, phase in enumerate(LIFE_PHASES):
+            if ph == 0:
+                mgr = jaxtyping.install_import_hook(hn, LIFE_TC[tcname])
+                handles.append(mgr)
+                with mgr:
+                    try:
+                        hooked = importlib.import_module(hn)
+                    except BaseException as e:
+                        findings.append(("life-import", f"importing the hooked module raises {type(e).__name__}: {str(e)[:120]}"))
+                        break
+                    hlog = [e for e in E.spy.LOG if e[0] != "spy"]
+                    if hlog != plog:
+                        x = next(((p, q) for p, q in itertools.zip_longest(plog, hlog) if p != q))
+                        findings.append(("life-import-log", f"import-time log: plain {x[0]!r:.120} vs hooked {x[1]!r:.120}"))
+                    a, b = _life_phase(E, plain, plan), _life_phase(E, hooked, plan)
+            else:
+                if ph == 2:
+                    handles.append(jaxtyping.install_import_hook("c10l_elsewhere", LIFE_OTHER[tcname]))
+                elif ph == 3:
+                    h3 = jaxtyping.install_import_hook("c10l_elsewhere_too", LIFE_TC[tcname])
+                    handles.append(h3)
+                    h3.uninstall()
+                elif ph == 4:
+                    handles[1].uninstall()
+                a, b = _life_phase(E, plain, plan), _life_phase(E, hooked, plan)
+            stats["life_phases"] += 1
+            stats["life_calls_compared"] += len(a[0])
+            stats["life_tracebacks_compared"] += sum(1 for o in a[0] if o[1] == "raise")
+            stats["life_log_events_compared"] += len(a[1])
+            stats["life_spy_applications"] += len(b[2])
+            if ph:
+                stats["life_spy_applications_after_uninstall"] += len(b[2])
+            for what, x, y in (("out", a[0], b[0]), ("log", a[1], b[1])):
+                if x != y:
+                    i, (p, q) = next((i, pq) for i, pq in enumerate(itertools.zip_longest(x, y)) if pq[0] != pq[1])
+                    tag = "traceback" if what == "out" and p and q and p[:4] == q[:4] else what
+                    findings.append((f"life-{phase}-{tag}", f"{phase}: {what}[{i}]: plain {p!r:.160} vs hooked {q!r:.160}"))
+                    break
+            if a[2]:
+                raise common.HarnessError(f"the plain module applied the spy: {a[2][:3]}")
+            if ph == 0:
+                first_spy = b[2]
+            elif b[2] != first_spy and not any(f[0].startswith(f"life-{phase}") for f in findings):
+                x = next(((p, q) for p, q in itertools.zip_longest(first_spy, b[2]) if p != q))
+                findings.append((f"life-{phase}-checker", f"{phase}: definitions made by the same calls were handed to {x[1]!r:.80}, inside the with-block to {x[0]!r:.80}"))
+            if findings:
+                break
+    finally:
+        for h in handles:
+            try:
+                h.uninstall()
+            except Exception:  # noqa: BLE001
+                pass
+        sys.meta_path[:] = meta
+        for n in (pn, hn):
+            sys.modules.pop(n, None)
+        for n in _LIFE_NS:
+            if n in had:
+                setattr(builtins, n, had[n])
+            elif hasattr(builtins, n):
+                delattr(builtins, n)
+        sys.dont_write_bytecode = dwb
+        saved.restore()
+        for path in paths:
+            try:
+                os.unlink(path)
+            except OSError:
+                pass
+    return findings
+
+
+def _viol_life(seq, k, nest, tcname, oracle, detail):
+    nest = list(nest)
+    return Violation(
+        key=f"C10:life:{seq or '-'}:k{k}:{'+'.join(nest) or 'flat'}:{tcname}:{oracle}",
+        what=f"hook lifecycle, generated module items={seq!r} existing_decorators={k} nesting={nest} typechecker={tcname}: [{oracle}] {detail}",
+        replay=dict(kind="life", seq=seq, k=k, nest=nest, tc=tcname),
+    )
+
+
+def _life_job(job):
+    common.bind_repo()
+    E = env()
+    stats = dict_counter()
+    viols, samples = [], []
+    tmp = tempfile.mkdtemp(prefix="c10-life-")
+    sys.path.insert(0, tmp)
+    uid = 0
+    try:
+        for seq in job["seqs"]:
+            try:
+                compile(gen_source(seq, 0, ())[0], FNAME, "exec", dont_inherit=True)
+            except SyntaxError:
+                stats["life_rejected_sequences"] += 1
+                continue
+            for k, nest in life_variants(seq):
+                for tcname in LIFE_TC:
+                    uid += 1
+                    fnd = life_case(E, tmp, uid, seq, k, nest, tcname, stats)
+                    stats["life_programs"] += 1
+                    if call_time_definitions(seq, nest):
+                        stats["life_programs_with_call_time_definitions"] += 1
+                    for orc, detail in fnd:
+                        viols.append(_viol_life(seq, k, nest, tcname, orc, detail))
+                    if not fnd and len(samples) < 1 and len(nest) == 3 and k and len(seq) >= 2:
+                        samples.append(dict(space="lifecycle", items=seq, existing_decorators=k, nesting=list(nest), typechecker=tcname, phases=LIFE_PHASES,
+                                            verdict="at every phase the hooked module's results, exceptions, logs and traceback frames equal the plain module's"))
+            if len(viols) >= 200:
+                break
+    finally:
+        if tmp in sys.path:
+            sys.path.remove(tmp)
+        shutil.rmtree(tmp, ignore_errors=True)
+    return _pack(stats), [v.to_json() for v in viols[:200]], samples
+
+
+# ======================================================================================
 # IPython route (light): the same transformer registered by the real magic
 # ======================================================================================
 
@@ -1061,10 +1263,14 @@ def run(ctx):
     for idx in common.shards(len(ip_items), common.NCPU if ctx.quick else common.NCPU * 2, ctx.seed):
         jobs.append(("ipython", dict(items=[ip_items[i] for i in idx])))
     jobs.append(("encoding", {}))
+    # hook-lifecycle route: every sequence of <= 2 (quick) / <= 3 (thorough) items that contains a def / class
+    life_seqs = [q for q in sequences(2 if ctx.quick else 3, 1) if any(ch in DEFLIKE for ch in q)]
+    for idx in common.shards(len(life_seqs), nsh, ctx.seed):
+        jobs.append(("life", dict(seqs=[life_seqs[i] for i in idx])))
     outs = common.pmap(_dispatch, jobs)
     # deterministic merge: by job kind then by first element
     order = sorted(range(len(jobs)), key=lambda i: (jobs[i][0], repr(sorted(map(repr, jobs[i][1].get("files", jobs[i][1].get("seqs", jobs[i][1].get("items", []))))))[:200]))
-    per = {"corpus": dict_counter(), "gen": dict_counter(), "ipython": dict_counter()}
+    per = {"corpus": dict_counter(), "gen": dict_counter(), "ipython": dict_counter(), "life": dict_counter()}
     viols, samples = [], []
     cpu = {}
     for i in order:
@@ -1076,16 +1282,17 @@ def run(ctx):
         viols += [Violation(**v) for v in vs]
         samples += sm
     viols.sort(key=lambda v: v.key)
-    c, g, ip = per["corpus"], per["gen"], per["ipython"]
+    c, g, ip, lf = per["corpus"], per["gen"], per["ipython"], per["life"]
     samples = sorted(samples, key=lambda s: repr(sorted(s.items())))
-    samples = [s for s in samples if s["space"] == "corpus"][:2] + [s for s in samples if s["space"] == "generated"][:3]
+    samples = [s for s in samples if s["space"] == "corpus"][:2] + [s for s in samples if s["space"] == "generated"][:3] + [s for s in samples if s["space"] == "lifecycle"][:2]
     ip_sample = dict(space="ipython", cells=ip.get("cells", 0), cells_executed=ip.get("cells_executed", 0), note="cells transformed by shell.transform_ast after the real %jaxtyping.typechecker magic")
     samples.append(ip_sample)
-    programs = c.get("programs", 0) + g.get("programs", 0) + ip.get("cells", 0)
+    programs = c.get("programs", 0) + g.get("programs", 0) + ip.get("cells", 0) + lf.get("life_programs", 0)
     disagreements = sum(
         d.get(k, 0)
-        for d in (c, g, ip)
-        for k in ("checks", "ast_dumps_compared", "decorators_checked", "code_pairs", "executions", "calls_compared", "log_events_compared", "cells_executed")
+        for d in (c, g, ip, lf)
+        for k in ("checks", "ast_dumps_compared", "decorators_checked", "code_pairs", "executions", "calls_compared", "log_events_compared", "cells_executed",
+                  "life_calls_compared", "life_log_events_compared")
     )
     cov = dict(
         programs=programs,
@@ -1107,6 +1314,16 @@ def run(ctx):
         tracebacks_compared=g.get("tracebacks_compared", 0),
         log_events_compared=g.get("log_events_compared", 0),
         spy_applications=g.get("spy_applications", 0) + ip.get("spy_applications", 0),
+        lifecycle_programs=lf.get("life_programs", 0),
+        lifecycle_programs_with_call_time_definitions=lf.get("life_programs_with_call_time_definitions", 0),
+        lifecycle_rejected_sequences=lf.get("life_rejected_sequences", 0),
+        lifecycle_phases_driven=lf.get("life_phases", 0),
+        lifecycle_calls_compared=lf.get("life_calls_compared", 0),
+        lifecycle_tracebacks_compared=lf.get("life_tracebacks_compared", 0),
+        lifecycle_log_events_compared=lf.get("life_log_events_compared", 0),
+        lifecycle_spy_applications=lf.get("life_spy_applications", 0),
+        lifecycle_spy_applications_after_uninstall=lf.get("life_spy_applications_after_uninstall", 0),
+        lifecycle_phases=LIFE_PHASES,
         ipython_cells=ip.get("cells", 0),
         ipython_cells_executed=ip.get("cells_executed", 0),
         decorators_checked=sum(d.get("decorators_checked", 0) for d in (c, g, ip)),
@@ -1127,6 +1344,11 @@ def run(ctx):
             "{string typechecker, None}; static oracles on "
             + ("all 21 variants for length <= 2, 2 variants for length 3, 1 variant for the length-4 sequences that start with D/S/N/F; executed: length <= 3 (same variants)" if ctx.quick
                else "the full product; executed: all variants for length <= 3, 4 variants for length 4")
+            + "; hook lifecycle (real files, real with install_import_hook(...) / uninstall, from the hook state of a fresh process): every sequence of length <= "
+            + ("2" if ctx.quick else "3")
+            + " that contains a def / class x existing decorators {0,2} x 12 nesting shapes (the 7 above + 5 of three levels: def.def.def, def.def.class, def.class.def, "
+            "class.def.def, class.def.class) x {string typechecker, None} x 5 points of the hook's life (inside the with-block, after it, another hook with another checker "
+            "installed, a hook with the same checker string installed and uninstalled, everything uninstalled), well-typed call plan incl. one raising call per nesting level"
         ),
         caps=(["length-3 sequences: 2 of 21 decorator/nesting variants", "length-4 sequences: only those starting with a docstring / constant / __future__ item (4 x 11^3), 1 of 21 variants, static oracles only (not executed)", "corpus: stdlib only"] if ctx.quick
               else ["length-4 sequences executed on 4 of 21 variants (static oracles on all 21)"]),
@@ -1146,8 +1368,10 @@ def run(ctx):
         assumptions=[
             "CPython's compile() is a deterministic function of the AST (a difference that is also present between compile(bytes) and compile(parse(bytes)) "
             "is counted as ast_roundtrip_artefact, never reported)",
-            "generated modules are executed with exec() on the code object returned by the real _JaxtypingLoader.source_to_code, not through sys.meta_path "
-            "(finder/loader plumbing is C11/C18)",
+            "oracle (vi) executes generated modules with exec() on the code object returned by the real _JaxtypingLoader.source_to_code; oracle (vii) imports them through "
+            "sys.meta_path with the real install_import_hook (which names are instrumented and the bytecode cache are C11/C18)",
+            "lifecycle route: the names LOG/d1/d2/dc/FLAG the generated modules use are provided through builtins while a case runs (the module source is the S2 source, unchanged); "
+            "every case starts from the hook-machinery state captured before the first Typechecker of the worker process was created and puts the worker's state back afterwards",
         ],
         notes=notes,
     )
@@ -1168,7 +1392,7 @@ def _merge(a, b):
 def _dispatch(job):
     kind, payload = job
     t0 = time.process_time()
-    out = {"corpus": _corpus_job, "gen": _gen_job, "ipython": _ipython_job, "encoding": _encoding_job}[kind](payload)
+    out = {"corpus": _corpus_job, "gen": _gen_job, "ipython": _ipython_job, "encoding": _encoding_job, "life": _life_job}[kind](payload)
     out[0]["cpu_s"] = time.process_time() - t0
     return out
 
@@ -1190,6 +1414,15 @@ def replay(rep):
         return dict(violates=bool(fnd), findings=[list(f) for f in fnd], info=r[2])
     seq, k, nest = rep["seq"], rep["k"], tuple(rep["nest"])
     src, plan = gen_source(seq, k, nest)
+    if rep["kind"] == "life":
+        tmp = tempfile.mkdtemp(prefix="c10-life-")
+        sys.path.insert(0, tmp)
+        try:
+            fnd = life_case(E, tmp, 1, seq, k, nest, rep["tc"], stats)
+        finally:
+            sys.path.remove(tmp)
+            shutil.rmtree(tmp, ignore_errors=True)
+        return dict(violates=bool(fnd), source=src, findings=[list(f) for f in fnd], phases=LIFE_PHASES)
     if rep.get("route") == "ipython":
         st, vs, _ = _ipython_job(dict(items=[(seq, k, list(nest), True)]))
         return dict(violates=bool(vs), source=src, findings=[v["what"] for v in vs])
